@@ -6,6 +6,7 @@ mod util;
 mod sc_nested;
 mod sc_ring;
 mod sc_bmoc;
+mod sc_cov;
 mod race;
 mod sc_proj;
 mod sc_zoc;
@@ -15,6 +16,15 @@ use util::*;
 
 fn main() {
   let args = Args::parse();
+  if args.pos.len() >= 1 && args.pos[0] == "cone1" {
+    // one cone query from the command line (used by replays and experiments): depth dd lon lat r (floats as bit patterns or decimals)
+    silence_panics();
+    let pf = |s: &str| -> f64 { if let Some(h) = s.strip_prefix("0x") { f64::from_bits(u64::from_str_radix(h, 16).unwrap()) } else { s.parse().unwrap() } };
+    let mut rng = Rng::new(args.u64("seed", 1));
+    let ev = sc_cov::cone_event(&mut rng, args.pos[1].parse().unwrap(), args.pos[2].parse().unwrap(), pf(&args.pos[3]), pf(&args.pos[4]), pf(&args.pos[5]), "cli");
+    println!("{}", ev.map_or("null".to_string(), |e| e.to_string()));
+    return;
+  }
   if args.pos.len() >= 1 && args.pos[0] == "race" { silence_panics(); race::run(&args); return; }
   if args.pos.len() < 2 { eprintln!("usage: hpx record|replay <scenario> [--seed S] [--count N] [--in F] [--out F]"); std::process::exit(2); }
   silence_panics();
@@ -31,6 +41,7 @@ fn main() {
         "C19" => sc_nested::record_c19(&mut rng, count, &mut out),
         "C04" => sc_nested::record_c04(&mut rng, count, &mut out),
         "C14" => sc_nested::record_c14(&mut rng, count, &mut out),
+        "CONE" => sc_cov::record_cone(&mut rng, count, &mut out),
         "C07" => sc_bmoc::record_c07(&mut rng, count, &mut out),
         "C08" => sc_bmoc::record_c08(&mut rng, count, &mut out),
         "C09" => sc_bmoc::record_c09(&mut rng, count, &mut out),
@@ -49,6 +60,7 @@ fn main() {
       let rd: Box<dyn BufRead> = if input == "-" { Box::new(std::io::BufReader::new(std::io::stdin())) } else { Box::new(std::io::BufReader::new(std::fs::File::open(&input).expect("cannot open input"))) };
       let mut stats = sc_nested::ReplayStats::default();
       let mut bregs = sc_bmoc::Regs::new();
+      let mut rrng = Rng::new(seed);
       for l in rd.lines() {
         let l = l.unwrap();
         if l.trim().is_empty() { continue; }
@@ -60,6 +72,7 @@ fn main() {
           "C19" => sc_nested::replay_c19(&v, &mut out, &mut stats),
           "C04" => sc_nested::replay_c04(&v, &mut out, &mut stats),
           "C14" => sc_nested::replay_c14(&v, &mut out, &mut stats),
+          "CONE" => sc_cov::replay_cone(&v, &mut out, &mut stats, &mut rrng),
           "BMOC" => sc_bmoc::replay_bmoc(&v, &mut out, &mut stats, &mut bregs),
           "C17" => sc_proj::replay_c17(&v, &mut out, &mut stats),
           "C18" => sc_zoc::replay_c18(&v, &mut out, &mut stats),
